@@ -237,6 +237,16 @@ func execute(r *core.Run, c *Case) {
 					req.TSARootCAs = x509.NewCertPool()
 					r.Count("late-fail-at-the-timestamp-authority", 1)
 				}
+				if c.Remote && v%8 == 4 {
+					// variant: an otherwise valid request whose context is cancelled
+					// while the signer is at work. Whether that makes Sign fail is
+					// not settled; what the object shows afterwards is
+					req.SigningTime = sims.SignTime
+					ctx, cancel := context.WithCancel(context.Background())
+					req = req.WithContext(ctx)
+					rs.OnSign = cancel
+					r.Count("context-cancelled-while-signing", 1)
+				}
 				if c.Remote && v%4 == 1 {
 					// variant: remote signer hands back a chain for another key
 					req.SigningTime = sims.SignTime
@@ -254,6 +264,14 @@ func execute(r *core.Run, c *Case) {
 			if p := core.Guard(func() { raw, serr = env.Sign(req) }); p != nil {
 				r.Count("panicked", 1)
 				return
+			}
+			if cancelledOK(opNames[op], c, i) && serr == nil && len(raw) > 0 {
+				// the cancellation did not stop the signing: an ordinary success
+				w := want(mt, fx.chain, payloadOf("F"), sims.SignTime)
+				states = []state{{w: w, name: "Holds(F, signed under a cancelled context)"}}
+				returned = append(returned, kept{raw, append([]byte{}, raw...), w})
+				r.Count("ok-sign", 1)
+				continue
 			}
 			if serr == nil || raw != nil {
 				fail(i, "invalid-sign-succeeded", fmt.Sprintf("failing request returned err=%v bytes=%d", serr, len(raw)))
@@ -358,6 +376,19 @@ func execute(r *core.Run, c *Case) {
 			r.Count("reads", 1)
 		}
 	}
+}
+
+// cancelledOK says whether the late-failing request at position i is the
+// cancelled-context variant (which may legitimately succeed).
+func cancelledOK(op string, c *Case, i int) bool {
+	if op != "signLateFail" || !c.Remote {
+		return false
+	}
+	v := i
+	for _, o := range c.Ops {
+		v += o
+	}
+	return v%8 == 4
 }
 
 // downTSA is a timestamp authority that cannot be reached.
